@@ -8,7 +8,7 @@ The first part is about `AdeptModel/GradAlloc.lean`, the transcription of
 `Stack::register_gradient(s)`, `unregister_gradient(s)` and `new_recording`; the second part (`C08_obj_…`) is about the
 OBJECT layer `AdeptModel/GradObj.lean` (Active, Storage reference counting, Array / SpecialMatrix construction, copy, link, views,
 resize, clear, assignment to an empty array, swap, destruction, FixedArray, std::vector<adouble>, adouble[n], allocation
-failure), whose operations are sequences of allocator calls: it DISCHARGES the hypothesis `Legal` of the first part.  The
+failure, construction from / assignment of nested initializer lists, EMPTY views, link to a temporary view), whose operations are sequences of allocator calls: it DISCHARGES the hypothesis `Legal` of the first part.  The
 correspondence check (checks/c08.py) ties both models to the C++ on every run.
 -/
 namespace Adept.GradAlloc
@@ -195,6 +195,70 @@ theorem C08_obj_alloc_fault_registers_nothing (s : OS) (h kind : Nat) (dims : Li
       · right
         simp [hlen]
 
+/-- Registration count of an object CONSTRUCTED FROM AN INITIALIZER LIST, FixedArray (`FixedArray.h`, the `std::initializer_list`
+    constructors of every rank: `GradientIndex<IsActive>(length_, false)`): in ANY state, an ACTIVE FixedArray of extents `dims` makes
+    exactly ONE allocator call, `register_gradients(length_)` with `length_` the product of its extents, and holds exactly the block
+    that call returned; an INACTIVE one calls the allocator not at all. -/
+theorem C08_obj_list_fixed_registers_length (s : OS) (h : Nat) (dims : List Nat)
+    (hf : freshHandle s h = true) (hne : dims ≠ []) (hpos : dims.all (fun d => 0 < d) = true) (hl : 0 < prodDims dims) :
+    (trace (ostep s (.listFixed h dims true)) = trace s ++ [Op.regN (prodDims dims)] ∧
+      (ostep s (.listFixed h dims true)).owns.lookup h =
+        some { scalar := false, bs := [((regN (prodDims dims) s.ga).2, prodDims dims)], cap := 0, tag := 5 }) ∧
+    ((ostep s (.listFixed h dims false)).ga = s.ga ∧ trace (ostep s (.listFixed h dims false)) = trace s ∧
+      ((ostep s (.listFixed h dims false)).owns.lookup h).map (·.bs) = some []) := by
+  have hown : s.owns.lookup h = none := by
+    simp only [freshHandle, Bool.and_eq_true, Option.isNone_iff_eq_none] at hf
+    exact hf.1
+  have hne' : (dims != []) = true := by simpa using hne
+  constructor
+  · simp [ostep, expand, hf, hne', hpos, prun, pstep, hown, hl, callRegN, putOwn, trace, insertAt]
+  · simp [ostep, expand, hf, hne', hpos, prun, pstep, hown, trace]
+
+/-- Registration count of an Array CONSTRUCTED FROM AN INITIALIZER LIST (`Array.h`, the `std::initializer_list` constructors:
+    `data_(0), storage_(0), dimensions_(0)`, then `*this = list`, which resizes the EMPTY array to the shape of the list): in ANY
+    state an ACTIVE Array makes exactly ONE allocator call, `register_gradients(data volume of the shape)` (for a vector: its
+    length), made by its new Storage, which it alone links to; an INACTIVE one calls the allocator not at all. -/
+theorem C08_obj_list_array_registers_volume (s : OS) (h : Nat) (dims : List Nat)
+    (hf : freshHandle s h = true) (hne : dims ≠ []) (hlen : dims.length < 8) (hpos : dims.all (fun d => 0 < d) = true) :
+    (trace (ostep s (.listArr h dims true)) = trace s ++ [Op.regN (layout dims.length s.packet dims).2.2] ∧
+      (ostep s (.listArr h dims true)).heap =
+        { sid := s.nextSid, n := (layout dims.length s.packet dims).2.2, links := 1,
+          gi := (regN (layout dims.length s.packet dims).2.2 s.ga).2 } :: s.heap) ∧
+    ((ostep s (.listArr h dims false)).ga = s.ga ∧ trace (ostep s (.listArr h dims false)) = trace s ∧
+      (ostep s (.listArr h dims false)).heap = s.heap) ∧
+    (∀ n P, (layout 1 P [n]).2.2 = n) := by
+  have hown : s.owns.lookup h = none := by
+    simp only [freshHandle, Bool.and_eq_true, Option.isNone_iff_eq_none] at hf
+    exact hf.1
+  have harr : s.arrs.lookup h = none := by
+    simp only [freshHandle, Bool.and_eq_true, Option.isNone_iff_eq_none] at hf
+    exact hf.2
+  have hne' : (dims != []) = true := by simpa using hne
+  have hk : nArgs dims.length = dims.length := by
+    simp only [nArgs]; split <;> omega
+  refine ⟨?_, ?_, ?_⟩
+  · simp [ostep, expand, hf, hne', hlen, hpos, prun, pstep, harr, emptyArr, hne, hk, callRegN, putArr, trace]
+  · simp [ostep, expand, hf, hne', hlen, hpos, prun, pstep, hown, trace]
+  · intro n P
+    simp [layout, packAux]
+
+/-- ASSIGNMENT of an initializer list to an object that has elements (an Array that is not `empty()` and has the shape of the list, an
+    object made from a list) calls the allocator not at all and changes no object; assigned to an `empty()` array WITHOUT storage it is
+    the construction above: one `register_gradients` by a new Storage. -/
+theorem C08_obj_list_assign_registers_nothing (s : OS) (h : Nat) (dims : List Nat) (a : ArrObj)
+    (hown : s.owns.lookup h = none) (ha : s.arrs.lookup h = some a) (hk : a.kind < 10) (hlen : dims.length = a.kind)
+    (hpos : dims.all (fun d => 0 < d) = true) :
+    (isEmptyArr a = false → a.dims = dims → ostep s (.assignList h dims) = s) ∧
+    (a.st = none → ostep s (.assignList h dims) = pstep s (.arrAlloc h dims)) := by
+  have hk' : ¬ (a.kind ≥ 10) := by omega
+  have hl' : (dims.length != a.kind) = false := by simp [hlen]
+  constructor
+  · intro he hd
+    simp [ostep, expand, hown, ha, hk', hl', hpos, he, hd, prun]
+  · intro hst
+    have he : isEmptyArr a = true := by simp [isEmptyArr, hst]
+    simp [ostep, expand, hown, ha, hk', hl', hpos, he, hst, prun]
+
 /-! Non-vacuity of the object-layer theorems: a concrete history — a scalar, a 2x5 matrix whose rows are padded (packet size 2:
 12 slots), a copy of it, a view of its second row, destruction of the PARENT, a scalar, a linked vector that is then resized
 (releases only its own reference), a failing construction — reaches a state with a storage of three links that outlived its
@@ -209,6 +273,34 @@ example :
     s.owns.map (fun p => (p.1, p.2.bs)) = [(8, [(21, 1)]), (4, [(13, 1)])] ∧
     s.ga.gaps = [(0, 0)] ∧ s.ga.nReg = 21 ∧ s.ub = false ∧
     trace s = [.reg1, .regN 12, .reg1, .regN 3, .regN 2, .unregN 17 2, .regN 4, .unreg1 0, .reg1, .reg1, .unreg1 0] := by
+  decide
+
+/-! Non-vacuity of the initializer-list / empty-view / link-to-temporary part: the hypotheses of the three `C08_obj_list_…` theorems hold in
+a concrete state, and a concrete history — a 2x3 active matrix and a 2x1x2 active FixedArray made from lists, an inactive FixedArray, an
+EMPTY view of the matrix (it links: two links, extents all zero) that outlives the matrix, a default-constructed vector assigned a list,
+a vector linked to a TEMPORARY view of it, the empty view assigned a list (it gives its link back — the matrix' six slots are released —
+and gets a new Storage of six), the FixedArray destroyed — ends with exact link counts and a legal trace. -/
+example :
+    freshHandle (initP 2) 0 = true ∧ ([2, 1, 2] : List Nat) ≠ [] ∧ ([2, 1, 2] : List Nat).all (fun d => 0 < d) = true ∧
+      0 < prodDims [2, 1, 2] := by
+  decide
+
+example :
+    let s := orun (initP 2) [.act 0, .listArr 1 [2, 3] true, .listFixed 2 [2, 1, 2] true, .listFixed 3 [3] false,
+                              .slice 4 1 [.rng 1 0 1, .rng 0 2 1]]
+    s.heap.map (fun t => (t.gi, t.n, t.links)) = [(1, 6, 2)] ∧
+    s.arrs.map (fun p => (p.1, p.2.g, p.2.dims, p.2.off)) = [(4, some 4, [0, 0], 3), (1, some 1, [2, 3], 0)] := by
+  decide
+
+example :
+    let s := orun (initP 2) [.act 0, .listArr 1 [2, 3] true, .listFixed 2 [2, 1, 2] true, .listFixed 3 [3] false,
+                              .slice 4 1 [.rng 1 0 1, .rng 0 2 1], .del 1, .act 5, .arr 7 1 [0] false, .assignList 7 [3],
+                              .arr 8 1 [2] false, .linkTemp 8 7 [.rng 1 2 1], .assignList 4 [2, 3], .del 2]
+    s.heap.map (fun t => (t.gi, t.n, t.links)) = [(1, 6, 1), (12, 3, 2)] ∧
+    s.arrs.map (fun p => (p.1, p.2.g, p.2.dims, p.2.off)) = [(4, some 1, [2, 3], 0), (8, some 13, [2], 1), (7, some 12, [3], 0)] ∧
+    s.owns.map (fun p => (p.1, p.2.bs)) = [(5, [(11, 1)]), (3, []), (0, [(0, 1)])] ∧
+    s.ga.gaps = [(7, 10)] ∧ s.ga.nReg = 11 ∧ s.ub = false ∧
+    trace s = [.reg1, .regN 6, .regN 4, .reg1, .regN 3, .regN 2, .unregN 15 2, .unregN 1 6, .regN 6, .unregN 7 4] := by
   decide
 
 end Adept.GradAlloc
